@@ -3,7 +3,8 @@
    and export of the cases the Go driver cmd/c10 replays into the real code.
 
    INVARIANTS  EscRoundTrip LikeStructure            -- expected to hold
-               LikeValue (MC_Escape_likevalue.cfg)   -- candidate: the first counterexample is TLC's witness
+               LikeValue (MC_Escape_likevalue.cfg)   -- expected to hold since doLike escapes before quoting; checked in its
+                                                        own run, a counterexample is TLC's witness for the binding
                Export                                -- always TRUE; prints one line per exported string:
                    "CASE|<s>|<Esc(s)>|<LikeContent(s)>|<LikeDecoded(s)>|<escok><likestruct><likevalue>"
    Exported: every string of length <= ExportLen, and of the longer ones those with (Hash(s)+Seed) % SampleMod = 0. *)
